@@ -17,7 +17,15 @@ use narsese::enum_narsese::{Budget, Narsese, Punctuation, Sentence, Stamp, Task,
 /// Ok(Some(v)) parsed, Ok(None) error (and the error could be displayed), Err(()) panic
 pub type PR<T> = Result<Option<T>, ()>;
 
+/// breadcrumb for crashes that cannot be caught (abort, stack overflow): the input about to be parsed
+pub fn crumb(what: &str, s: &str) {
+    if let Ok(path) = std::env::var("NVH_BREADCRUMB") {
+        let _ = std::fs::write(path, format!("{} {:?}", what, s));
+    }
+}
+
 pub fn real_parse(e: &'static EFmt, s: &str) -> PR<Narsese> {
+    crumb("enum parse", s);
     guard(|| match e.parse::<Narsese>(s) {
         Ok(v) => Some(v),
         Err(err) => {
@@ -58,6 +66,7 @@ door!(real_stamp, Stamp);
 door!(real_punct, Punctuation);
 
 pub fn real_multi(e: &'static EFmt, inputs: &[String]) -> Result<Vec<Option<Narsese>>, ()> {
+    crumb("parse_multi", &format!("{:?}", inputs));
     guard(|| {
         e.parse_multi(inputs.iter().map(|s| s.as_str()))
             .into_iter()
@@ -97,6 +106,7 @@ fn canon_pr(r: &PR<Narsese>) -> String {
 
 /// lexical parse + fold with the same-named formats
 pub fn real_lexfold(fm: &Fm, s: &str) -> PR<Narsese> {
+    crumb("lexical parse + fold", s);
     let (e, l) = (fm.e, fm.l);
     guard(|| match l.parse(s) {
         Ok(lv) => match lv.try_fold_into(e) {
@@ -214,6 +224,21 @@ fn finish(o: &Opts, prop: &str, mut rep: Report, cases: Vec<String>) -> Report {
 fn value_stream(rng: &mut Rng, fm: &Fm, n: usize, thorough: bool) -> Vec<Narsese> {
     let g = term_gen_for(fm, if thorough { 6 } else { 4 }, if thorough { 5 } else { 4 });
     let mut out = vec![];
+    // prefixed atoms with numeric names as whole terms / bare judgements (back-off between budget bracket and variable prefix)
+    for name in ["1", "0", "12"] {
+        for k in 0..4 {
+            let t = match k {
+                0 => Term::new_variable_independent(name),
+                1 => Term::new_variable_dependent(name),
+                2 => Term::new_variable_query(name),
+                _ => Term::new_operator(name),
+            };
+            out.push(Narsese::Term(t.clone()));
+            out.push(Narsese::Sentence(Sentence::Judgement(t.clone(), Truth::Empty, Stamp::Eternal)));
+            out.push(Narsese::Sentence(Sentence::Question(t.clone(), Stamp::Eternal)));
+            out.push(Narsese::Task(Task::new(Sentence::Goal(t, Truth::Empty, Stamp::Eternal), Budget::Empty)));
+        }
+    }
     // every constructor on top, as term / sentence / task
     for k in 0..30 {
         out.push(gen_narsese(rng, &g, k % 3, Some(k)));
@@ -562,6 +587,11 @@ pub fn run_c09(o: &Opts) -> Report {
             if c01_known(fm.e, &v, &text).is_some() {
                 continue;
             }
+            if risky_names(fm.e, v.get_term()) {
+                // a name ending in the beginning of a copula: removing the space before a copula merges them (class K3)
+                cx.rep.hist.add(format!("{}:skipped-risky-name", fm.name));
+                continue;
+            }
             let toks = narsese_tokens(fm.e, &v, Sugar::None, &mut rng);
             let canonical = toks.canonical();
             // the same value written with the derived copulas where it has the desugared shape (no spaces / random spaces)
@@ -626,6 +656,24 @@ pub fn run_c09(o: &Opts) -> Report {
 
 /// removing the spaces the formatter prints around copulas can merge a name with the copula (only when
 /// a name character sequence plus copula start forms another copula: the K3 mechanism)
+/// some atom name of the value ends with a non-empty proper prefix of a copula of the format: written directly
+/// before a copula (no space) such a name merges with it -- the K3 mechanism, for plain and derived copulas alike
+pub fn risky_names(e: &EFmt, t: &Term) -> bool {
+    fn walk(e: &EFmt, x: &Term) -> bool {
+        if let Some(name) = x.get_atom_name() {
+            if matches!(x, Term::Placeholder | Term::Interval(..)) {
+                return false;
+            }
+            return e.copulas().iter().any(|c| {
+                let cs: Vec<char> = c.chars().collect();
+                (1..cs.len()).any(|k| name.ends_with(&cs[..k].iter().collect::<String>()))
+            });
+        }
+        x.get_components().into_iter().any(|c| walk(e, c))
+    }
+    walk(e, t)
+}
+
 fn respace_known(fm: &Fm, v: &Narsese) -> bool {
     // evaluate K3 as if the format printed no spaces between terms
     let t = v.get_term();
@@ -708,6 +756,10 @@ pub fn run_c10(o: &Opts) -> Report {
             if c01_known(e, &v, &text0).is_some() {
                 continue;
             }
+            if risky_names(e, v.get_term()) {
+                cx.rep.hist.add(format!("{}:skipped-risky-name", fm.name));
+                continue;
+            }
             let toks = narsese_tokens(e, &v, Sugar::Derived, &mut rng);
             let want = canon_narsese(&v);
             for policy in [1usize, 2] {
@@ -737,6 +789,7 @@ pub fn run_c10(o: &Opts) -> Report {
             (format!("{l}S{sp}{}{sp}P{r}", st.copula_equivalence_retrospective), format!("{l}P{sp}{}{sp}S{r}", st.copula_equivalence_predictive)),
             (format!("{}0007", e.atom.prefix_interval), format!("{}7", e.atom.prefix_interval)),
         ];
+        let eqs: Vec<(String, String)> = eqs.iter().cloned().chain(eqs.iter().map(|(a, b)| (a.replace(sp, ""), b.replace(sp, "")))).collect();
         for (a, b) in eqs {
             let ra = cx.parse_case(&fm, &a);
             let rb = cx.parse_case(&fm, &b);
@@ -1045,6 +1098,34 @@ pub fn run_c15(o: &Opts) -> Report {
                     }
                 }
                 Narsese::Term(_) => {}
+            }
+            // the lexical model: the same casts on the lexical value of the same text, and on hand-built budgets with blank entries
+            if let Some(Some(lv)) = guard(|| fm.l.parse(&e.format_narsese(&v)).ok()) {
+                use narsese::lexical::{Narsese as LN, Task as LTask};
+                match lv {
+                    LN::Sentence(ls) => {
+                        let lk: LTask = ls.clone().cast_to_task();
+                        if !lk.budget.is_empty() || lk.clone().try_cast_to_sentence().ok().as_ref() != Some(&ls) {
+                            cx.fail("casts", "lexical: sentence -> task -> sentence must return the original", canon_narsese(&v), "Ok(original)".into(), format!("{:?}", lk), None);
+                        }
+                        for blank in [vec!["".to_string()], vec!["".to_string(), "".to_string()], vec!["0.5".to_string()], vec!["".to_string(), "0.5".to_string()]] {
+                            let t2 = LTask { budget: blank.clone(), sentence: ls.clone() };
+                            match t2.clone().try_cast_to_sentence() {
+                                Err(back) if back == t2 => {}
+                                other => cx.fail("casts", "lexical: a task with a non-empty budget list must be handed back unchanged", format!("budget {:?} on {}", blank, canon_narsese(&v)), "Err(same task)".into(), format!("{:?}", other.is_ok()), None),
+                            }
+                        }
+                    }
+                    LN::Task(lk) => {
+                        let empty = lk.budget.is_empty();
+                        match lk.clone().try_cast_to_sentence() {
+                            Ok(s2) if empty && s2 == lk.sentence => {}
+                            Err(back) if !empty && back == lk => {}
+                            other => cx.fail("casts", "lexical: task -> sentence succeeds exactly for an empty budget", canon_narsese(&v), format!("empty={}", empty), format!("{:?}", other.is_ok()), None),
+                        }
+                    }
+                    LN::Term(_) => {}
+                }
             }
             // wrap / unwrap
             let kind = kind_of(&v);
